@@ -1855,6 +1855,15 @@ def gen_cl_task(r, n, tier, focus="mix"):
                   "X" + hx(bytes([0, 0, 0, 0, 1, 0, 1])), "A50", "X" + hx(mbap(0, 1, bytes([0x81, 2]))),
                   "X" + hx(mbap(0, 1, bytes([3, 2, 0, 1]))), "X" + hx(mbap(9, 1, bytes([1, 1, 0x55]))), "X" + hx(good),
                   "X" + hx(mbap(0, 1, bytes([1, 2, 0x55])))]
+        # a connection that dies in the middle of a frame must not leave parser state behind: the
+        # first frame of the next session of the same channel is parsed afresh (RTU and MBAP)
+        for frm in ("r", "t"):
+            good1 = cl_frame(frm, 0, 1, bytes([3, 2, 0, 7]))
+            good2 = cl_frame(frm, 1, 1, bytes([3, 2, 0, 9]))
+            for cut in range(1, len(good1)):
+                for how in ("Xe", "Xf"):
+                    yield (f"cl {frm} d000 q16 m0 N,E0,R0.a.rh.1.100.0.1,X{hx(good1[:cut])},{how},"
+                           f"N,R0.b.rh.1.100.0.1,X{hx(good2)},A200")
         for ev in events:
             for m in (0, 1):
                 first = "R0.a.rc.1.50.0.8" if ev != "W" else "W,R0.a.rc.1.50.0.8"
